@@ -2,7 +2,7 @@
    Only statements, each closed by `exact`, with its assumptions printed.  The model is Model/RdpFixed.v
    (rdp._rdp_fixed / rdp_fixed); dist, prio are ORACLES (any valuation), eps is any value, n any size. *)
 From Coq Require Import ZArith List Arith Bool PrimFloat.
-From Knee Require Import Num NumFloat NpList OrdLaws FloatOrder Model.Mapping Model.RdpFixed Model.RdpFixedSpec
+From Knee Require Import Num NumFloat NpList OrdLaws FloatOrder Model.Mapping Model.RdpFixed Model.RdpFixedPrio Model.RdpFixedSpec
      Proofs.ListFacts Proofs.MappingFacts Proofs.RdpFixedLists Proofs.RdpFixedFacts Proofs.RdpFixedBool Run.JudgeC05.
 Import ListNotations.
 Local Open Scope num_scope.
@@ -109,6 +109,25 @@ Theorem C05_fixed_greedy_derived : forall (N : Num) n (eps : T N) dist ord chord
 Proof. exact (fun N n eps dist ord chord resid => @fixed_greedy N n eps dist (prio_derived ord chord resid dist)). Qed.
 Print Assumptions C05_fixed_greedy_derived.
 
+(* ... and with the residual itself computed in-model from the points (Model/RdpFixedPrio.v prio_closed: the only oracles left
+   are the configured distance table and the chord norm) *)
+Theorem C05_fixed_greedy_closed : forall (N : Num) n (eps : T N) (pts : list (T N * T N)) dist ord chord,
+  2 <= n -> (forall l r, l + 3 <= r -> r <= n -> length (dist l r) = r - l) ->
+  forall fuel k,
+  TotalPreorderOn (@notnan N) -> notnan (@zero N) ->
+  (forall j a b, In (a, b) (adj_pairs (red_of (rdp_fixed n eps dist (prio_closed pts ord chord dist) fuel j))) -> a + 2 <= b ->
+                 notnan (prio_closed pts ord chord dist a (b + 1))) ->
+  n <= fuel -> 2 <= k -> k < n ->
+  exists red a b,
+    rdp_fixed n eps dist (prio_closed pts ord chord dist) fuel k = Some (red, rows red) /\ In (a, b) (adj_pairs red) /\ a + 2 <= b /\
+    rdp_fixed n eps dist (prio_closed pts ord chord dist) fuel (k + 1) =
+      Some (insert_nat (a + split_guarded eps (dist a (b + 1))) red,
+            rows (insert_nat (a + split_guarded eps (dist a (b + 1))) red)) /\
+    forall a' b', In (a', b') (adj_pairs red) -> a' + 2 <= b' ->
+      (a' = a /\ b' = b) \/ prio_closed pts ord chord dist a' (b' + 1) <=?! prio_closed pts ord chord dist a (b + 1) = true.
+Proof. exact (fun N n eps pts dist ord chord => @fixed_greedy N n eps dist (prio_closed pts ord chord dist)). Qed.
+Print Assumptions C05_fixed_greedy_closed.
+
 Theorem C05_chain_holds_derived_float : forall n (eps : float) dist ord chord resid,
   2 <= n -> (forall l r, l + 3 <= r -> r <= n -> length (dist l r) = r - l) ->
   forall fuel ordered, n <= fuel ->
@@ -128,8 +147,13 @@ Print Assumptions C05_chain_holds_derived_float.
    stated ones bit-for-bit.  First: symmetric with tied priorities; second: the jagged curve y = 4,6,0,1,0,4, on which points
    project outside chords (shortest <> perpendicular distance). *)
 Example C05_example :
-  judge (CChain 6%nat OTriangle [((0%nat, 3%nat), [0x0.0p+0%float; 0x1.5775c544ff263p+0%float; 0x0.0p+0%float]); ((0%nat, 4%nat), [0x0.0p+0%float; 0x1.94c583ada5b52p+0%float; 0x1.43d136248490ep-2%float; 0x0.0p+0%float]); ((0%nat, 5%nat), [0x0.0p+0%float; 0x1.5775c544ff263p+0%float; 0x0.0p+0%float; 0x1.c9f25c5bfeddap-2%float; 0x0.0p+0%float]); ((0%nat, 6%nat), [0x0.0p+0%float; 0x1.0000000000000p+1%float; 0x1.0000000000000p+0%float; 0x1.0000000000000p+0%float; 0x1.0000000000000p+1%float; 0x0.0p+0%float]); ((1%nat, 4%nat), [0x0.0p+0%float; 0x1.c9f25c5bfedd9p-2%float; 0x0.0p+0%float]); ((1%nat, 5%nat), [0x0.0p+0%float; 0x1.0000000000000p+0%float; 0x1.0000000000000p+0%float; 0x0.0p+0%float]); ((1%nat, 6%nat), [0x0.0p+0%float; 0x1.c9f25c5bfedd9p-2%float; 0x0.0p+0%float; 0x1.5775c544ff263p+0%float; 0x0.0p+0%float]); ((2%nat, 5%nat), [0x0.0p+0%float; 0x1.c9f25c5bfedd9p-2%float; 0x0.0p+0%float]); ((2%nat, 6%nat), [0x0.0p+0%float; 0x1.43d136248490fp-2%float; 0x1.94c583ada5b52p+0%float; 0x0.0p+0%float]); ((3%nat, 6%nat), [0x0.0p+0%float; 0x1.5775c544ff263p+0%float; 0x0.0p+0%float])] [((0%nat, 3%nat), 0x1.1e3779b97f4a8p+1%float); ((0%nat, 4%nat), 0x1.94c583ada5b53p+1%float); ((0%nat, 5%nat), 0x1.1e3779b97f4a8p+2%float); ((1%nat, 4%nat), 0x1.1e3779b97f4a8p+1%float); ((1%nat, 5%nat), 0x1.8000000000000p+1%float); ((1%nat, 6%nat), 0x1.1e3779b97f4a8p+2%float); ((2%nat, 5%nat), 0x1.1e3779b97f4a8p+1%float); ((2%nat, 6%nat), 0x1.94c583ada5b53p+1%float); ((3%nat, 6%nat), 0x1.1e3779b97f4a8p+1%float)] [] [((1%nat, 6%nat), 0x1.8000000000000p+1%float); ((1%nat, 5%nat), 0x1.8000000000000p+0%float); ((2%nat, 5%nat), 0x1.0000000000000p-1%float)] [(Some ([0%nat; 5%nat], [(0%nat, 4%nat)])); (Some ([0%nat; 5%nat], [(0%nat, 4%nat)])); (Some ([0%nat; 5%nat], [(0%nat, 4%nat)])); (Some ([0%nat; 1%nat; 5%nat], [(0%nat, 0%nat); (1%nat, 3%nat)])); (Some ([0%nat; 1%nat; 4%nat; 5%nat], [(0%nat, 0%nat); (1%nat, 2%nat); (4%nat, 0%nat)])); (Some ([0%nat; 1%nat; 2%nat; 4%nat; 5%nat], [(0%nat, 0%nat); (1%nat, 0%nat); (2%nat, 1%nat); (4%nat, 0%nat)])); (Some ([0%nat; 1%nat; 2%nat; 3%nat; 4%nat; 5%nat], [(0%nat, 0%nat); (1%nat, 0%nat); (2%nat, 0%nat); (3%nat, 0%nat); (4%nat, 0%nat)])); (Some ([0%nat; 1%nat; 2%nat; 3%nat; 4%nat; 5%nat], [(0%nat, 0%nat); (1%nat, 0%nat); (2%nat, 0%nat); (3%nat, 0%nat); (4%nat, 0%nat)]))]) = 0%Z.
+  judge (CChain 6%nat OTriangle [(0x0.0p+0%float, 0x1.8000000000000p+1%float); (0x1.0000000000000p+0%float, 0x1.0000000000000p+0%float); (0x1.0000000000000p+1%float, 0x1.0000000000000p+1%float); (0x1.8000000000000p+1%float, 0x1.0000000000000p+1%float); (0x1.0000000000000p+2%float, 0x1.0000000000000p+0%float); (0x1.4000000000000p+2%float, 0x1.8000000000000p+1%float)] [((0%nat, 3%nat), [0x0.0p+0%float; 0x1.5775c544ff263p+0%float; 0x0.0p+0%float]); ((0%nat, 4%nat), [0x0.0p+0%float; 0x1.94c583ada5b52p+0%float; 0x1.43d136248490ep-2%float; 0x0.0p+0%float]); ((0%nat, 5%nat), [0x0.0p+0%float; 0x1.5775c544ff263p+0%float; 0x0.0p+0%float; 0x1.c9f25c5bfeddap-2%float; 0x0.0p+0%float]); ((0%nat, 6%nat), [0x0.0p+0%float; 0x1.0000000000000p+1%float; 0x1.0000000000000p+0%float; 0x1.0000000000000p+0%float; 0x1.0000000000000p+1%float; 0x0.0p+0%float]); ((1%nat, 4%nat), [0x0.0p+0%float; 0x1.c9f25c5bfedd9p-2%float; 0x0.0p+0%float]); ((1%nat, 5%nat), [0x0.0p+0%float; 0x1.0000000000000p+0%float; 0x1.0000000000000p+0%float; 0x0.0p+0%float]); ((1%nat, 6%nat), [0x0.0p+0%float; 0x1.c9f25c5bfedd9p-2%float; 0x0.0p+0%float; 0x1.5775c544ff263p+0%float; 0x0.0p+0%float]); ((2%nat, 5%nat), [0x0.0p+0%float; 0x1.c9f25c5bfedd9p-2%float; 0x0.0p+0%float]); ((2%nat, 6%nat), [0x0.0p+0%float; 0x1.43d136248490fp-2%float; 0x1.94c583ada5b52p+0%float; 0x0.0p+0%float]); ((3%nat, 6%nat), [0x0.0p+0%float; 0x1.5775c544ff263p+0%float; 0x0.0p+0%float])] [((0%nat, 3%nat), 0x1.1e3779b97f4a8p+1%float); ((0%nat, 4%nat), 0x1.94c583ada5b53p+1%float); ((0%nat, 5%nat), 0x1.1e3779b97f4a8p+2%float); ((1%nat, 4%nat), 0x1.1e3779b97f4a8p+1%float); ((1%nat, 5%nat), 0x1.8000000000000p+1%float); ((1%nat, 6%nat), 0x1.1e3779b97f4a8p+2%float); ((2%nat, 5%nat), 0x1.1e3779b97f4a8p+1%float); ((2%nat, 6%nat), 0x1.94c583ada5b53p+1%float); ((3%nat, 6%nat), 0x1.1e3779b97f4a8p+1%float)] [] [((1%nat, 6%nat), 0x1.8000000000000p+1%float); ((1%nat, 5%nat), 0x1.8000000000000p+0%float); ((2%nat, 5%nat), 0x1.0000000000000p-1%float)] [(Some ([0%nat; 5%nat], [(0%nat, 4%nat)])); (Some ([0%nat; 5%nat], [(0%nat, 4%nat)])); (Some ([0%nat; 5%nat], [(0%nat, 4%nat)])); (Some ([0%nat; 1%nat; 5%nat], [(0%nat, 0%nat); (1%nat, 3%nat)])); (Some ([0%nat; 1%nat; 4%nat; 5%nat], [(0%nat, 0%nat); (1%nat, 2%nat); (4%nat, 0%nat)])); (Some ([0%nat; 1%nat; 2%nat; 4%nat; 5%nat], [(0%nat, 0%nat); (1%nat, 0%nat); (2%nat, 1%nat); (4%nat, 0%nat)])); (Some ([0%nat; 1%nat; 2%nat; 3%nat; 4%nat; 5%nat], [(0%nat, 0%nat); (1%nat, 0%nat); (2%nat, 0%nat); (3%nat, 0%nat); (4%nat, 0%nat)])); (Some ([0%nat; 1%nat; 2%nat; 3%nat; 4%nat; 5%nat], [(0%nat, 0%nat); (1%nat, 0%nat); (2%nat, 0%nat); (3%nat, 0%nat); (4%nat, 0%nat)]))]) = 0%Z.
 Proof. vm_compute. reflexivity. Qed.
 Example C05_example_jagged :
-  judge (CChain 6%nat OTriangle [((0%nat, 3%nat), [0x0.0p+0%float; 0x1.1e3779b97f4a8p+1%float; 0x0.0p+0%float]); ((0%nat, 4%nat), [0x0.0p+0%float; 0x1.1e3779b97f4a8p+1%float; 0x1.6a09e667f3bcdp+0%float; 0x0.0p+0%float]); ((0%nat, 5%nat), [0x0.0p+0%float; 0x1.1e3779b97f4a7p+1%float; 0x1.6a09e667f3bccp+0%float; 0x0.0p+0%float; 0x0.0p+0%float]); ((0%nat, 6%nat), [0x0.0p+0%float; 0x1.0000000000000p+1%float; 0x1.0000000000000p+2%float; 0x1.8000000000000p+1%float; 0x1.0000000000000p+2%float; 0x0.0p+0%float]); ((1%nat, 4%nat), [0x0.0p+0%float; 0x1.6a09e667f3bccp+0%float; 0x1.0000000000000p-52%float]); ((1%nat, 5%nat), [0x0.0p+0%float; 0x1.c9f25c5bfeddap+0%float; 0x1.c9f25c5bfeddcp-2%float; 0x0.0p+0%float]); ((1%nat, 6%nat), [0x0.0p+0%float; 0x1.3ad69f7f3f385p+2%float; 0x1.c9f25c5bfeddap+1%float; 0x1.07e0f66afed07p+2%float; 0x0.0p+0%float]); ((2%nat, 5%nat), [0x0.0p+0%float; 0x1.0000000000000p+0%float; 0x0.0p+0%float]); ((2%nat, 6%nat), [0x0.0p+0%float; 0x1.999999999999cp-3%float; 0x1.999999999999ap+0%float; 0x1.0000000000000p-51%float]); ((3%nat, 6%nat), [0x0.0p+0%float; 0x1.6a09e667f3bcdp+0%float; 0x0.0p+0%float])] [((0%nat, 3%nat), 0x1.1e3779b97f4a8p+2%float); ((0%nat, 4%nat), 0x1.0f876ccdf6cd9p+2%float); ((0%nat, 5%nat), 0x1.6a09e667f3bcdp+2%float); ((1%nat, 4%nat), 0x1.58a68a4a8d9f3p+2%float); ((1%nat, 5%nat), 0x1.ad5336963eefcp+2%float); ((1%nat, 6%nat), 0x1.1e3779b97f4a8p+2%float); ((2%nat, 5%nat), 0x1.0000000000000p+1%float); ((2%nat, 6%nat), 0x1.4000000000000p+2%float); ((3%nat, 6%nat), 0x1.cd82b446159f3p+1%float)] [] [((0%nat, 3%nat), 0x1.4000000000001p+2%float); ((2%nat, 6%nat), 0x1.0000000000000p+2%float); ((2%nat, 5%nat), 0x1.0000000000000p+0%float)] [(Some ([0%nat; 5%nat], [(0%nat, 4%nat)])); (Some ([0%nat; 5%nat], [(0%nat, 4%nat)])); (Some ([0%nat; 5%nat], [(0%nat, 4%nat)])); (Some ([0%nat; 2%nat; 5%nat], [(0%nat, 1%nat); (2%nat, 2%nat)])); (Some ([0%nat; 1%nat; 2%nat; 5%nat], [(0%nat, 0%nat); (1%nat, 0%nat); (2%nat, 2%nat)])); (Some ([0%nat; 1%nat; 2%nat; 4%nat; 5%nat], [(0%nat, 0%nat); (1%nat, 0%nat); (2%nat, 1%nat); (4%nat, 0%nat)])); (Some ([0%nat; 1%nat; 2%nat; 3%nat; 4%nat; 5%nat], [(0%nat, 0%nat); (1%nat, 0%nat); (2%nat, 0%nat); (3%nat, 0%nat); (4%nat, 0%nat)])); (Some ([0%nat; 1%nat; 2%nat; 3%nat; 4%nat; 5%nat], [(0%nat, 0%nat); (1%nat, 0%nat); (2%nat, 0%nat); (3%nat, 0%nat); (4%nat, 0%nat)]))]) = 0%Z.
+  judge (CChain 6%nat OTriangle [(0x0.0p+0%float, 0x1.0000000000000p+2%float); (0x1.0000000000000p+0%float, 0x1.8000000000000p+2%float); (0x1.0000000000000p+1%float, 0x0.0p+0%float); (0x1.8000000000000p+1%float, 0x1.0000000000000p+0%float); (0x1.0000000000000p+2%float, 0x0.0p+0%float); (0x1.4000000000000p+2%float, 0x1.0000000000000p+2%float)] [((0%nat, 3%nat), [0x0.0p+0%float; 0x1.1e3779b97f4a8p+1%float; 0x0.0p+0%float]); ((0%nat, 4%nat), [0x0.0p+0%float; 0x1.1e3779b97f4a8p+1%float; 0x1.6a09e667f3bcdp+0%float; 0x0.0p+0%float]); ((0%nat, 5%nat), [0x0.0p+0%float; 0x1.1e3779b97f4a7p+1%float; 0x1.6a09e667f3bccp+0%float; 0x0.0p+0%float; 0x0.0p+0%float]); ((0%nat, 6%nat), [0x0.0p+0%float; 0x1.0000000000000p+1%float; 0x1.0000000000000p+2%float; 0x1.8000000000000p+1%float; 0x1.0000000000000p+2%float; 0x0.0p+0%float]); ((1%nat, 4%nat), [0x0.0p+0%float; 0x1.6a09e667f3bccp+0%float; 0x1.0000000000000p-52%float]); ((1%nat, 5%nat), [0x0.0p+0%float; 0x1.c9f25c5bfeddap+0%float; 0x1.c9f25c5bfeddcp-2%float; 0x0.0p+0%float]); ((1%nat, 6%nat), [0x0.0p+0%float; 0x1.3ad69f7f3f385p+2%float; 0x1.c9f25c5bfeddap+1%float; 0x1.07e0f66afed07p+2%float; 0x0.0p+0%float]); ((2%nat, 5%nat), [0x0.0p+0%float; 0x1.0000000000000p+0%float; 0x0.0p+0%float]); ((2%nat, 6%nat), [0x0.0p+0%float; 0x1.999999999999cp-3%float; 0x1.999999999999ap+0%float; 0x1.0000000000000p-51%float]); ((3%nat, 6%nat), [0x0.0p+0%float; 0x1.6a09e667f3bcdp+0%float; 0x0.0p+0%float])] [((0%nat, 3%nat), 0x1.1e3779b97f4a8p+2%float); ((0%nat, 4%nat), 0x1.0f876ccdf6cd9p+2%float); ((0%nat, 5%nat), 0x1.6a09e667f3bcdp+2%float); ((1%nat, 4%nat), 0x1.58a68a4a8d9f3p+2%float); ((1%nat, 5%nat), 0x1.ad5336963eefcp+2%float); ((1%nat, 6%nat), 0x1.1e3779b97f4a8p+2%float); ((2%nat, 5%nat), 0x1.0000000000000p+1%float); ((2%nat, 6%nat), 0x1.4000000000000p+2%float); ((3%nat, 6%nat), 0x1.cd82b446159f3p+1%float)] [] [((0%nat, 3%nat), 0x1.4000000000001p+2%float); ((2%nat, 6%nat), 0x1.0000000000000p+2%float); ((2%nat, 5%nat), 0x1.0000000000000p+0%float)] [(Some ([0%nat; 5%nat], [(0%nat, 4%nat)])); (Some ([0%nat; 5%nat], [(0%nat, 4%nat)])); (Some ([0%nat; 5%nat], [(0%nat, 4%nat)])); (Some ([0%nat; 2%nat; 5%nat], [(0%nat, 1%nat); (2%nat, 2%nat)])); (Some ([0%nat; 1%nat; 2%nat; 5%nat], [(0%nat, 0%nat); (1%nat, 0%nat); (2%nat, 2%nat)])); (Some ([0%nat; 1%nat; 2%nat; 4%nat; 5%nat], [(0%nat, 0%nat); (1%nat, 0%nat); (2%nat, 1%nat); (4%nat, 0%nat)])); (Some ([0%nat; 1%nat; 2%nat; 3%nat; 4%nat; 5%nat], [(0%nat, 0%nat); (1%nat, 0%nat); (2%nat, 0%nat); (3%nat, 0%nat); (4%nat, 0%nat)])); (Some ([0%nat; 1%nat; 2%nat; 3%nat; 4%nat; 5%nat], [(0%nat, 0%nat); (1%nat, 0%nat); (2%nat, 0%nat); (3%nat, 0%nat); (4%nat, 0%nat)]))]) = 0%Z.
+Proof. vm_compute. reflexivity. Qed.
+(* same-object stream: two curves x two configurations (segment order: the residual is computed in-model from the points and the
+   library's value must match bit-for-bit), all calls interleaved on one array object *)
+Example C05_example_seq :
+  judge (CSeq [CH 5%nat OSegment [(0x0.0p+0%float, 0x1.0000000000000p+2%float); (0x1.0000000000000p+0%float, 0x1.8000000000000p+2%float); (0x1.0000000000000p+1%float, 0x0.0p+0%float); (0x1.8000000000000p+1%float, 0x1.0000000000000p+0%float); (0x1.0000000000000p+2%float, 0x0.0p+0%float)] [((0%nat, 5%nat), [0x0.0p+0%float; 0x1.1e3779b97f4a7p+1%float; 0x1.6a09e667f3bccp+0%float; 0x0.0p+0%float; 0x0.0p+0%float]); ((1%nat, 5%nat), [0x0.0p+0%float; 0x1.c9f25c5bfeddap+0%float; 0x1.c9f25c5bfeddcp-2%float; 0x0.0p+0%float]); ((2%nat, 5%nat), [0x0.0p+0%float; 0x1.0000000000000p+0%float; 0x0.0p+0%float])] [] [((1%nat, 5%nat), 0x1.1000000000000p+4%float); ((2%nat, 5%nat), 0x1.0000000000000p+0%float)] [((1%nat, 5%nat), 0x1.1000000000000p+4%float); ((2%nat, 5%nat), 0x1.0000000000000p+0%float)] [(Some ([0%nat; 4%nat], [(0%nat, 3%nat)])); (Some ([0%nat; 4%nat], [(0%nat, 3%nat)])); (Some ([0%nat; 4%nat], [(0%nat, 3%nat)])); (Some ([0%nat; 1%nat; 4%nat], [(0%nat, 0%nat); (1%nat, 2%nat)])); (Some ([0%nat; 1%nat; 2%nat; 4%nat], [(0%nat, 0%nat); (1%nat, 0%nat); (2%nat, 1%nat)])); (Some ([0%nat; 1%nat; 2%nat; 3%nat; 4%nat], [(0%nat, 0%nat); (1%nat, 0%nat); (2%nat, 0%nat); (3%nat, 0%nat)])); (Some ([0%nat; 1%nat; 2%nat; 3%nat; 4%nat], [(0%nat, 0%nat); (1%nat, 0%nat); (2%nat, 0%nat); (3%nat, 0%nat)]))]; CH 5%nat OArea [(0x0.0p+0%float, 0x1.0000000000000p+2%float); (0x1.0000000000000p+0%float, 0x1.8000000000000p+2%float); (0x1.0000000000000p+1%float, 0x0.0p+0%float); (0x1.8000000000000p+1%float, 0x1.0000000000000p+0%float); (0x1.0000000000000p+2%float, 0x0.0p+0%float)] [((0%nat, 5%nat), [0x0.0p+0%float; 0x1.0f876ccdf6cd9p+1%float; 0x1.6a09e667f3bccp+0%float; 0x0.0p+0%float; 0x0.0p+0%float]); ((1%nat, 5%nat), [0x0.0p+0%float; 0x1.c9f25c5bfedd9p+0%float; 0x1.c9f25c5bfedd9p-2%float; 0x0.0p+0%float]); ((2%nat, 5%nat), [0x0.0p+0%float; 0x1.0000000000000p+0%float; 0x0.0p+0%float])] [] [] [((1%nat, 5%nat), 0x1.1e3779b97f4a8p+1%float); ((2%nat, 5%nat), 0x1.0000000000000p+0%float)] [(Some ([0%nat; 4%nat], [(0%nat, 3%nat)])); (Some ([0%nat; 4%nat], [(0%nat, 3%nat)])); (Some ([0%nat; 4%nat], [(0%nat, 3%nat)])); (Some ([0%nat; 1%nat; 4%nat], [(0%nat, 0%nat); (1%nat, 2%nat)])); (Some ([0%nat; 1%nat; 2%nat; 4%nat], [(0%nat, 0%nat); (1%nat, 0%nat); (2%nat, 1%nat)])); (Some ([0%nat; 1%nat; 2%nat; 3%nat; 4%nat], [(0%nat, 0%nat); (1%nat, 0%nat); (2%nat, 0%nat); (3%nat, 0%nat)])); (Some ([0%nat; 1%nat; 2%nat; 3%nat; 4%nat], [(0%nat, 0%nat); (1%nat, 0%nat); (2%nat, 0%nat); (3%nat, 0%nat)]))]; CH 5%nat OSegment [(0x0.0p+0%float, 0x1.8000000000000p+1%float); (0x1.0000000000000p+0%float, 0x1.0000000000000p+0%float); (0x1.0000000000000p+1%float, 0x1.0000000000000p+1%float); (0x1.8000000000000p+1%float, 0x1.0000000000000p+1%float); (0x1.0000000000000p+2%float, 0x1.0000000000000p+0%float)] [((0%nat, 5%nat), [0x0.0p+0%float; 0x1.5775c544ff263p+0%float; 0x0.0p+0%float; 0x1.c9f25c5bfeddap-2%float; 0x0.0p+0%float]); ((1%nat, 5%nat), [0x0.0p+0%float; 0x1.0000000000000p+0%float; 0x1.0000000000000p+0%float; 0x0.0p+0%float]); ((2%nat, 5%nat), [0x0.0p+0%float; 0x1.c9f25c5bfedd9p-2%float; 0x0.0p+0%float])] [] [((1%nat, 5%nat), 0x1.0000000000000p+1%float); ((2%nat, 5%nat), 0x1.0000000000000p-2%float)] [((1%nat, 5%nat), 0x1.0000000000000p+1%float); ((2%nat, 5%nat), 0x1.0000000000000p-2%float)] [(Some ([0%nat; 4%nat], [(0%nat, 3%nat)])); (Some ([0%nat; 4%nat], [(0%nat, 3%nat)])); (Some ([0%nat; 4%nat], [(0%nat, 3%nat)])); (Some ([0%nat; 1%nat; 4%nat], [(0%nat, 0%nat); (1%nat, 2%nat)])); (Some ([0%nat; 1%nat; 2%nat; 4%nat], [(0%nat, 0%nat); (1%nat, 0%nat); (2%nat, 1%nat)])); (Some ([0%nat; 1%nat; 2%nat; 3%nat; 4%nat], [(0%nat, 0%nat); (1%nat, 0%nat); (2%nat, 0%nat); (3%nat, 0%nat)])); (Some ([0%nat; 1%nat; 2%nat; 3%nat; 4%nat], [(0%nat, 0%nat); (1%nat, 0%nat); (2%nat, 0%nat); (3%nat, 0%nat)]))]; CH 5%nat OArea [(0x0.0p+0%float, 0x1.8000000000000p+1%float); (0x1.0000000000000p+0%float, 0x1.0000000000000p+0%float); (0x1.0000000000000p+1%float, 0x1.0000000000000p+1%float); (0x1.8000000000000p+1%float, 0x1.0000000000000p+1%float); (0x1.0000000000000p+2%float, 0x1.0000000000000p+0%float)] [((0%nat, 5%nat), [0x0.0p+0%float; 0x1.5775c544ff263p+0%float; 0x0.0p+0%float; 0x1.c9f25c5bfedd9p-2%float; 0x0.0p+0%float]); ((1%nat, 5%nat), [0x0.0p+0%float; 0x1.0000000000000p+0%float; 0x1.0000000000000p+0%float; 0x0.0p+0%float]); ((2%nat, 5%nat), [0x0.0p+0%float; 0x1.c9f25c5bfedd9p-2%float; 0x0.0p+0%float])] [] [] [((1%nat, 5%nat), 0x1.0000000000000p+1%float); ((2%nat, 5%nat), 0x1.c9f25c5bfedd9p-2%float)] [(Some ([0%nat; 4%nat], [(0%nat, 3%nat)])); (Some ([0%nat; 4%nat], [(0%nat, 3%nat)])); (Some ([0%nat; 4%nat], [(0%nat, 3%nat)])); (Some ([0%nat; 1%nat; 4%nat], [(0%nat, 0%nat); (1%nat, 2%nat)])); (Some ([0%nat; 1%nat; 2%nat; 4%nat], [(0%nat, 0%nat); (1%nat, 0%nat); (2%nat, 1%nat)])); (Some ([0%nat; 1%nat; 2%nat; 3%nat; 4%nat], [(0%nat, 0%nat); (1%nat, 0%nat); (2%nat, 0%nat); (3%nat, 0%nat)])); (Some ([0%nat; 1%nat; 2%nat; 3%nat; 4%nat], [(0%nat, 0%nat); (1%nat, 0%nat); (2%nat, 0%nat); (3%nat, 0%nat)]))]]) = 0%Z.
 Proof. vm_compute. reflexivity. Qed.
